@@ -1165,6 +1165,21 @@ namespace
                     break;
                 }
                 case H_DEL:
+                    if (hwhere[i] >= 0 && mod(arg(o, 3), 3) == 2)
+                    {
+                        // the in-place filter: a walk over i's chain deletes every entry of i's parity and goes on behind each of them
+                        int L = hwhere[i], nd = 0;
+                        std::vector<int> want_del, gone((size_t)ni + 2);
+                        for (int id : mh[L]) if ((id & 1) == (i & 1)) want_del.push_back(id);
+                        size_t before = mh[L].size();
+                        int visited = mod(arg(o, 2), 2) ? cxx_filter_hl(hh[L].get(), i & 1, gone.data(), ni + 1, &nd) : c01_c_filter_hl(hh[L].get(), i & 1, gone.data(), ni + 1, &nd);
+                        gone.resize((size_t)std::max(nd, 0));
+                        if (visited != (int)before || gone != want_del)
+                            violate("C01/hlist-filter", "an in-place filter over a chain of %zu entries (hlist_for_each_entry deleting every entry of one parity) visited %d entries and deleted %s, expected %s", before, visited, seq(gone).c_str(), seq(want_del).c_str());
+                        for (int id : want_del) { hlist_node_init(&it[id]->hn); erase_val(mh[L], id); hwhere[id] = -1; dels++; }
+                        if (want_del.size() >= 1 && before > want_del.size()) probe("hlist_filtered_in_place");
+                        break;
+                    }
                     // hlist_del on a node that was never linked / already removed and re-initialised must be harmless
                     if (hwhere[i] < 0) probe("second_removal");
                     hlist_del(&it[i]->hn);
